@@ -42,6 +42,19 @@ def perm_explicit(psids, chain=1):
             "chainLengthRange": 0, "eeType": (b"\x00", 1)}
 
 
+def split_groups(psids, rng, chain=1, with_all=False):
+    """certIssuePermissions covering `psids`, split over 1-3 explicit PsidGroupPermissions in random order
+    (optionally plus an `all` group): issuing scope = union over the groups"""
+    ps = list(psids)
+    rng.shuffle(ps)
+    k = rng.randrange(1, min(3, len(ps)) + 1) if ps else 1
+    cuts = sorted(rng.sample(range(1, len(ps)), k - 1)) if k > 1 else []
+    groups = [perm_explicit(ps[a:b], chain) for a, b in zip([0] + cuts, cuts + [len(ps)])]
+    if with_all:
+        groups.insert(rng.randrange(len(groups) + 1), perm_all(chain))
+    return groups
+
+
 def tbs(name=None, app=None, issue=None, start=0, duration=("years", 10)):
     t = {"id": ("name", name) if name is not None else ("none", None), "cracaId": b"\x00\x00\x00", "crlSeries": 0,
          "validityPeriod": {"start": start, "duration": duration},
